@@ -36,14 +36,36 @@ pub struct Case {
     pub versions: Vec<Option<usize>>,
 }
 
-async fn h_plain(_rqctx: RequestContext<()>) -> Result<HttpResponseOk<()>, HttpError> {
-    Ok(HttpResponseOk(()))
+/// what a handler saw: echoed by the live slice
+#[derive(Serialize, Deserialize, schemars::JsonSchema)]
+pub struct Echo {
+    pub op: String,
+    pub vars: Vec<(String, String)>,
+    pub ctype: u8,
+    pub maxbytes: Option<u64>,
+}
+fn echo(rqctx: &RequestContext<()>) -> Echo {
+    let md = &rqctx.endpoint;
+    Echo {
+        op: md.operation_id.clone(),
+        vars: md.variables.iter().map(|(k, v)| (k.clone(), format!("{:?}", v))).collect(),
+        ctype: match md.body_content_type {
+            ApiEndpointBodyContentType::Json => 0,
+            ApiEndpointBodyContentType::UrlEncoded => 1,
+            ApiEndpointBodyContentType::Bytes => 2,
+            ApiEndpointBodyContentType::MultipartFormData => 3,
+        },
+        maxbytes: md.request_body_max_bytes.map(|x| x as u64),
+    }
+}
+async fn h_plain(rqctx: RequestContext<()>) -> Result<HttpResponseOk<Echo>, HttpError> {
+    Ok(HttpResponseOk(echo(&rqctx)))
 }
 async fn h_path(
-    _rqctx: RequestContext<()>,
+    rqctx: RequestContext<()>,
     _p: Path<Dyn<0>>,
-) -> Result<HttpResponseOk<()>, HttpError> {
-    Ok(HttpResponseOk(()))
+) -> Result<HttpResponseOk<Echo>, HttpError> {
+    Ok(HttpResponseOk(echo(&rqctx)))
 }
 
 /// template variables by a tolerant scan of the path text: (name, wildcard)
@@ -91,7 +113,13 @@ pub fn make_endpoint(chain: &[Version], e: &EpSpec) -> ApiEndpoint<()> {
             req.push(json!(name));
         }
         set_slot_json(0, "P", json!({"type": "object", "properties": props, "required": req}));
-        ApiEndpoint::new(e.id.clone(), h_path, method, ctype_str(e.ctype), &e.path, range)
+        let mut ep =
+            ApiEndpoint::new(e.id.clone(), h_path, method.clone(), ctype_str(e.ctype), &e.path, mk_range(chain, &e.range).expect("constructible range"));
+        // keep the parameter metadata (registration validates it) but answer
+        // with the handler that echoes the router's own variable set, so that
+        // nothing depends on deserialising the dynamic type at run time
+        ep.handler = ApiEndpoint::new(e.id.clone(), h_plain, method, ctype_str(e.ctype), &e.path, range).handler;
+        ep
     };
     if let Some(m) = e.maxbytes {
         ep = ep.request_body_max_bytes(m as usize);
@@ -341,6 +369,125 @@ pub fn g_ep(e: &EpSpec) -> String {
         g_opt(&e.maxbytes, |m| m.to_string()),
         g_bool(e.visible)
     )
+}
+
+/// bytes hyper passes through in a request target without complaint
+fn wire_safe(p: &str) -> bool {
+    p.bytes().all(|b| b.is_ascii_alphanumeric() || b"/%._~-".contains(&b))
+}
+
+/// The same grid through a real server: `http_request_handle` resolves the
+/// version (header policy), hands `uri.path()` to the router and turns the
+/// outcome into a response whose status, `Allow` header lines and echoed
+/// endpoint data are read off the wire.
+pub fn exec_live(case: &Case) -> Option<Line> {
+    use crate::live::*;
+    let chain: Vec<Version> = case.chain.iter().map(|s| Version::parse(s).unwrap()).collect();
+    let (codes, api) = register_all(&chain, &case.eps);
+    let api = api?;
+    let versioned = case.versions.iter().any(|v| v.is_some());
+    let paths: Vec<String> = case.paths.iter().filter(|p| wire_safe(p)).cloned().collect();
+    if paths.is_empty() {
+        return None;
+    }
+    let rt = rt();
+    let server = {
+        let _g = rt.enter();
+        let policy = if versioned {
+            Some(dropshot::VersionPolicy::Dynamic(Box::new(dropshot::ClientSpecifiesVersionInHeader::new(
+                http::HeaderName::from_static("x-v"),
+                chain.iter().max().unwrap().clone(),
+            ))))
+        } else {
+            None
+        };
+        start_server(api, (), ServerOpts { version_policy: policy, ..Default::default() })
+    };
+    let addr = server.local_addr();
+    let mut obs: Vec<Obs> = vec![];
+    let mut conn = Conn::open(addr).ok()?;
+    for p in &paths {
+        for m in &case.methods {
+            for v in &case.versions {
+                let vs = v.map(|i| chain[i].to_string());
+                let hdrs: Vec<(&str, &str)> = match &vs {
+                    Some(s) => vec![("x-v", s.as_str())],
+                    None => vec![],
+                };
+                let req = request(m, p, &hdrs, None);
+                let mut r = conn.send(&req).ok().and_then(|_| conn.read_response(false).ok());
+                if r.is_none() {
+                    // the server may have closed the connection after an error
+                    if let Ok(c2) = Conn::open(addr) {
+                        conn = c2;
+                        r = conn.send(&req).ok().and_then(|_| conn.read_response(false).ok());
+                    }
+                }
+                let o = match r {
+                    None => Obs::Panic,
+                    Some(r) => match r.status {
+                        200 => match serde_json::from_slice::<Echo>(&r.body) {
+                            Ok(e) => Obs::Found {
+                                id: e.op,
+                                vars: e.vars.into_iter().map(|(k, d)| (k, parse_variable_value(&d))).collect(),
+                                ctype: e.ctype,
+                                maxbytes: e.maxbytes,
+                            },
+                            Err(_) => Obs::Err { status: 200 },
+                        },
+                        404 => Obs::E404,
+                        400 => Obs::E400,
+                        405 => Obs::E405 {
+                            allow: r
+                                .header_all("allow")
+                                .iter()
+                                .flat_map(|v| {
+                                    String::from_utf8_lossy(v)
+                                        .split(',')
+                                        .map(|s| s.trim().to_string())
+                                        .filter(|s| !s.is_empty())
+                                        .collect::<Vec<_>>()
+                                })
+                                .collect(),
+                        },
+                        s => Obs::Err { status: s },
+                    },
+                };
+                if r_close_needed(&o) {
+                    if let Ok(c2) = Conn::open(addr) {
+                        conn = c2;
+                    }
+                }
+                obs.push(o);
+            }
+        }
+    }
+    rt.block_on(async { server.close().await.ok() });
+    let coq = format!(
+        "(CTable {} {} {} {} {} {})",
+        g_list(&case.eps, g_ep),
+        g_list(&codes, |c| c.to_string()),
+        g_list(&paths, |p| g_str(p)),
+        g_list(&case.methods, |m| g_str(m)),
+        g_list(&case.versions, |v| g_opt(v, |i| i.to_string())),
+        g_list(&obs, g_obs)
+    );
+    let mut live_case = case.clone();
+    live_case.paths = paths;
+    let n405 = obs.iter().filter(|o| matches!(o, Obs::E405 { .. })).count();
+    let nfound = obs.iter().filter(|o| matches!(o, Obs::Found { .. })).count();
+    Some(Line {
+        group: "live-table",
+        case: serde_json::to_value(&live_case).unwrap(),
+        obs: json!({"registration": codes, "lookups": obs.len(), "found": nfound, "e405": n405,
+                     "first_lookups": obs.iter().take(6).collect::<Vec<_>>()}),
+        coq,
+        tags: vec!["live".to_string(), format!("live-requests:{}", obs.len())],
+        nontrivial: case.eps.len() >= 2,
+    })
+}
+fn r_close_needed(_o: &Obs) -> bool {
+    false
 }
 
 pub fn exec(case: &Case) -> Line {
@@ -651,11 +798,30 @@ pub fn gen(opts: &Opts, conflict_rate: usize, ntables: usize) -> Vec<Case> {
 }
 
 pub fn run(opts: &Opts, replay: Option<Vec<serde_json::Value>>, out: &mut dyn Write, conflict_rate: usize) {
+    let live = opts.mode == "live";
     let cases: Vec<Case> = match replay {
-        Some(vs) => vs.into_iter().map(|v| serde_json::from_value(v).expect("router case")).collect(),
-        None => gen(opts, conflict_rate, if opts.thorough { 4000 } else { 400 }),
+        Some(vs) => vs
+            .into_iter()
+            .filter(|v| v.get("eps").is_some() && v.get("paths").is_some())
+            .map(|v| serde_json::from_value(v).expect("router case"))
+            .collect(),
+        None => {
+            if live {
+                let mut o = Opts { seed: opts.seed ^ 0x11fe, thorough: opts.thorough, mode: String::new() };
+                o.seed = o.seed.wrapping_add(1);
+                gen(&o, 4, if opts.thorough { 1200 } else { 120 })
+            } else {
+                gen(opts, conflict_rate, if opts.thorough { 4000 } else { 400 })
+            }
+        }
     };
     for c in &cases {
-        emit(out, &exec(c));
+        if live {
+            if let Some(l) = exec_live(c) {
+                emit(out, &l);
+            }
+        } else {
+            emit(out, &exec(c));
+        }
     }
 }
